@@ -1,12 +1,24 @@
-import Okane.Drv.IOUtil
+import Okane.Drv.Core
 import Okane.Model.InlineDisplay
+import Okane.Model.CmdText
 /-!
-Driver for C13: the printed form of a multi-commodity amount (`Okane.Amount.inlineDisplay`, the model of the
-repaired `InlinePrintAmount`) run on the decimal text okane printed.
+Driver for C13.
 
+`drv c13` (no argument): the printed form of a multi-commodity amount (`Okane.Amount.inlineDisplay`, the model of the
+repaired `InlinePrintAmount`) run on the decimal text okane printed.
 Case line: `<enc commodity>=<enc value text> ...` — the entries of one amount in an arbitrary (shuffled) order;
 `-` alone for the empty amount.  Output: `<enc text>` = what okane must have printed for that amount, whatever
 order its hash map was in.
+
+`drv c13 cmd`: the text of whole commands (`Okane.CmdText.run`, proved in `Lemmas/CmdTextEq.lean` to be the command
+models of the C13 theorems for every layout history).
+Case line: `<id> tree=<sexp> cmds=(<cmd> ...)` where `tree` is the implementation's parsed tree as `hx process` prints
+it and `<cmd>` is `(balance <date?> <date?>)` (`--start`, `--end`; `()` = absent, `((d Y M D))` = present),
+`(register)`, `(register <enc account>)` or `(accounts)`.
+Output: `<id> <res> ...`, one `<res>` per command, in order:
+`ok:<enc stdout>` | `err:<entry index>:<enc message>` | `panic:<enc site>` | `fuel` | `badcmd`;
+or `<id> undecodable` when the tree cannot be decoded.  Numerals are holes `U+0001 num/den U+0002`, a message that
+the binary continues with data the model does not carry ends with U+0003 (see `Model/CmdText.lean`).
 -/
 namespace Okane.Drv.C13
 open Okane
@@ -27,8 +39,40 @@ def step (line : String) : String :=
     | some es => Sexp.encode (Amount.inlineDisplay (fun a b : String => decide (a ≤ b)) (fun c v => v ++ " " ++ c) es)
     | none => "bad-case"
 
+/-! ## whole commands -/
+
+def decCmd : Sexp → Option CmdText.Cmd
+  | .list [.atom "balance", s, e] => do
+    let s ← decOpt decDate s; let e ← decOpt decDate e
+    pure (.balance ⟨s, e⟩)
+  | .list [.atom "register"] => some (.register none)
+  | .list [.atom "register", a] => a.str?.map fun a => .register (some a)
+  | .list [.atom "accounts"] => some .accounts
+  | _ => none
+
+def showResult : CmdText.Result → String
+  | .ok out => "ok:" ++ Sexp.encode out
+  | .err (i, msg) => "err:" ++ toString i ++ ":" ++ Sexp.encode msg
+  | .panic s => "panic:" ++ Sexp.encode s
+  | .fuelOut => "fuel"
+
+def stepCmd (line : String) : String :=
+  let (id, fs) := splitFields line
+  match field fs "tree", field fs "cmds" with
+  | some t, some cs =>
+    match decEntries t, Sexp.parse cs with
+    | some es, some (.list cmds) =>
+      let rs := cmds.map fun c =>
+        match decCmd c with
+        | some c => showResult (CmdText.run c es)
+        | none => "badcmd"
+      id ++ " " ++ " ".intercalate rs
+    | _, _ => id ++ " undecodable"
+  | _, _ => id ++ " bad-case"
+
 def main (args : List String) : IO Unit := do
-  let _ := args
-  forEachLine step
+  match args with
+  | "cmd" :: _ => forEachLine stepCmd
+  | _ => forEachLine step
 
 end Okane.Drv.C13
